@@ -127,6 +127,18 @@ def run_variant(v, repo=None):
             return v["name"], "FAIL", f"expected a report naming {v.get('names')}; new findings: " \
                                       f"{[f.key[:80] for f in new][:4]} undecided: {und[:2]}"
         else:
+            # a report counts as an alarm when some property's check would print it (an area-tagged lint reports under the
+            # properties that list that area; a report of an area no property lists is not printed by any check)
+            from .properties import PROPS as _PROPS
+
+            def claimed(f):
+                for spec in _PROPS.values():
+                    for r in spec["rules"]:
+                        base_r, _, clause = r.partition(":")
+                        if base_r == f.rule and (not clause or clause in f.extra.get("clauses", [clause])):
+                            return True
+                return False
+            new = [f for f in new if claimed(f)]
             if new or (und and not v.get("undecided_ok")):
                 return v["name"], "FAIL", f"benign twin raised {[f.key[:90] for f in new][:3]} {und[:2]}"
             if und:
